@@ -353,6 +353,47 @@ def check_div(prop: str, res: Result, repo: Repo, cas: List[ClassAnalysis], sign
                 res.fail("R-DIV", finding(prop, "R-DIV", fn, s.node, f"`{norm_construct(s.node)}`: denominator {den!r} (sign {sg}) is not provably non-zero; facts: {describe_facts(s.facts)}", construct=f"division by {den!r}"))
 
 
+def decaying_series(ca: ClassAnalysis):
+    """names of unrounded (managed) series whose recurrence multiplies the previous value by a factor != 1: such a series can become
+    arbitrarily small without being 0 (geometric decay), so a quotient by it can overflow to inf"""
+    out = set()
+    for s in ca.sites("write"):
+        if s.data.get("how") != "set_reading":
+            continue
+        v = s.data.get("value")
+        fields = {"": v} if isinstance(v, Num) else ({"." + k: x for k, x in v.items.items() if isinstance(x, Num)} if isinstance(v, DictV) else {})
+        for suffix, x in fields.items():
+            series = f"{s.data.get('name')}{suffix}"
+            for a in poly.all_atoms(x.f):
+                if a[0] == "rd" and a[1] == series:
+                    coef = poly.subst(x.f, {a: Frac.atom(a) + ONE}) - x.f
+                    if not coef.same(ONE) and not any(b[0] == "rd" for b in poly.all_atoms(coef)):
+                        out.add(series)
+    return out
+
+
+def check_nan(prop: str, res: Result, repo: Repo, cas: List[ClassAnalysis]):
+    """R-NAN: a division whose numerator and denominator can both overflow (each is itself a quotient by a series that may be
+    arbitrarily small) evaluates to inf/inf = NaN; the algebraically equal form with the unbounded quotient only in the denominator is safe"""
+    for ca in cas:
+        dec = decaying_series(ca)
+        fn = _fn_of(ca)
+
+        def may_inf(f: Frac) -> bool:
+            if f.d.is_const():
+                return False
+            return all(any(a[0] == "rd" and a[1] in dec for a, _ in m) for m in f.d.t) and bool(f.d.t)
+
+        for s in ca.sites("div"):
+            num, den = s.data.get("num"), s.data.get("den")
+            if not isinstance(num, Frac) or not isinstance(den, Frac):
+                continue
+            if dec and may_inf(num) and may_inf(den):
+                res.fail("R-NAN", finding(prop, "R-NAN", fn, s.node, f"numerator {num!r} and denominator {den!r} are both quotients by a geometrically decaying, unrounded series ({sorted(dec)}): when it underflows towards 0 both overflow and the result is inf/inf = NaN (or inf)"))
+            else:
+                res.ok("R-NAN", {"site": f"{ca.ci.module.relpath}:{s.line}", "decaying series": sorted(dec)}, nontrivial=f"{ca.ci.name}:{s.line}" if dec else None)
+
+
 def check_sqrt(prop: str, res: Result, repo: Repo, cas: List[ClassAnalysis], signs: Signs):
     for ca1 in cas:
         ca = signs.analyse(ca1.ci)
